@@ -109,8 +109,9 @@ def run_sequence(ctx, name, ops, model, sanitize=False):
     before = outside_state(s)
     res = None
     try:
-        done = []; dirs = set()
+        done = []; dirs = set(); real = []
         for i, op in enumerate(ops):
+            prev_real = real
             st = http_op(s, op, dirs)
             done.append(op)
             _, mo, _ = vlib.run_lines(model, [" ".join(model_tok(o) for o in done)])
@@ -127,6 +128,10 @@ def run_sequence(ctx, name, ops, model, sanitize=False):
                 if real == (l2.split() if l2 else []) and (b2[-1] == "1") == got_ok:
                     res = ("%s of the non-collection %s onto the existing collection %s (Overwrite %s) was carried out as %s into the collection (status %s) instead of "
                            "what RFC 4918 prescribes for an existing destination" % (op[0].upper(), op[1], op[2], "T" if op[3] else "F", op[0], st), i, st, "file-onto-collection"); break
+            if op[0] in ("copy", "move") and op[1] in prev_dirs and not got_ok and want_ok and real == prev_real and any(x.startswith(op[2] + "=F:") for x in prev_real):
+                res = ("%s of the collection %s onto the existing non-collection %s with Overwrite T is refused (status %s, nothing changed): mod_webdav_copymove_b() appends '/' to the "
+                       "Destination of a collection and then cannot see the file it would have to replace (RFC 4918 9.8.4: delete the destination, then copy)" % (op[0].upper(), op[1], op[2], st),
+                       i, st, "collection-onto-non-collection"); break
             if real != (mlist.split() if mlist else []):
                 extra = [x for x in real if x not in mlist.split()][:3]; missing = [x for x in mlist.split() if x not in real][:3]
                 res = ("after %s (status %s) the directory differs from the tree RFC 4918 prescribes: unexpected %s, missing %s" % (op[:3] if op[0] != "put" else op[:2], st, extra, missing), i, st); break
@@ -196,6 +201,9 @@ def run(ctx):
     seqs.insert(0, [("put", "/a", b"A"), ("move", "/a", "/a", True, "dots"), ("copy", "/a", "/b", True, False, "plain"), ("copy", "/a", "/b", True, False, "plain"),
                     ("mkcol", "/d1"), ("put", "/d1/x.txt", b"X"), ("copy", "/d1", "/d2", True, False, "plain"), ("copy", "/d1", "/d2", True, False, "abs"),
                     ("move", "/d1", "/d1/sub", True, "plain"), ("copy", "/d2", "/d2", True, False, "enc")])
+    # the two recorded deviations, reproduced on every run (known_findings.txt)
+    seqs.insert(1, [("mkcol", "/sub"), ("put", "/d1", b"D1"), ("copy", "/sub", "/d1", True, True, "plain")])
+    seqs.insert(2, [("put", "/x.txt", b"X"), ("mkcol", "/d2"), ("copy", "/x.txt", "/d2", True, False, "plain")])
     from concurrent.futures import ThreadPoolExecutor
     with ThreadPoolExecutor(max_workers=8) as ex:
         outs = list(ex.map(lambda a: run_sequence(ctx, "q%d" % a[0], a[1], model), enumerate(seqs)))
